@@ -38,7 +38,7 @@ TRUSTED = [
 ]
 ASSUMPTIONS = [
     "keys are declared with add_argument('--a.b.c', type=T) and default None; no subcommands, links, class types or paths",
-    "floats within binary64 range with <= 15 significant digits (decimal model of Model/TyVal.v); no NaN/inf settings",
+    "floats within binary64 range with <= 15 significant digits (decimal model of Model/TyVal.v); no NaN/inf settings; integers beyond 2^53 only for types without a float position (float(int) rounds there)",
     "the model is compared with the observations of parser_mode yaml; json / jsonnet / omegaconf observations are judged "
     "against the specification (agreement with all other channels) only",
     "a string is 'unambiguous text' only at a str position; strings below Any, non-strings where str/Any could take the text, "
@@ -288,6 +288,18 @@ def gen_any_value(rng, depth):
     return {"d": [[kk, gen_any_value(rng, depth - 1)] for kk in sorted(ks)]}
 
 
+def clamp_ints(v):
+    """integers a float position converts exactly (|z| <= 2^53): beyond that float(z) rounds, outside the decimal float model"""
+    if isinstance(v, dict):
+        if "i" in v and abs(int(v["i"])) > 2 ** 53:
+            return {"i": str(int(v["i"]) % 1000003)}
+        if "l" in v:
+            return {"l": [clamp_ints(x) for x in v["l"]]}
+        if "d" in v:
+            return {"d": [[k, clamp_ints(x)] for k, x in v["d"]]}
+    return v
+
+
 def finite(v):
     if isinstance(v, dict):
         if "f" in v:
@@ -341,7 +353,7 @@ def generate(rng, tier):
     cases.append(make_case(rng, ["any"], {"l": [{"f": "19974.0"}, False]}, modes=["yaml", "jsonnet"], key=["g", "k"]))
     cases.append(make_case(rng, ["set", ["int"]], {"l": [{"i": "3"}, {"i": "1"}]}, key=["items"]))
     cases.append(make_case(rng, ["enum", ["a", "b"]], "a", key=["g", "values"]))
-    n = 300 if tier == "quick" else 3000
+    n = 300 if tier == "quick" else 2000
     # every look-alike string at a str-typed position, and at the scalar types
     for s in LOOKALIKES + WORDS:
         cases.append(make_case(rng, ["str"], s))
@@ -354,6 +366,8 @@ def generate(rng, tier):
         v = gen_value(rng, t, 0.85)
         if not finite(v):
             continue
+        if '"float"' in json.dumps(t):
+            v = clamp_ints(v)
         c = make_case(rng, t, v, modes=None if tier == "thorough" or rng.random() < 0.35 else ["yaml", rng.choice(MODES[1:])])
         if tier == "thorough" and rng.random() < 0.25:
             c["full"] = True   # every channel variant under every mode, not only under yaml
